@@ -86,6 +86,20 @@ def matrix(tier):
                    ["bundle", n("b" + h), "bundle"],
                    ["rec", 1, "entity", n("e" + h), {}, [[n("k"), {"k": "lit", "v": h, "dt": n("T")}]], "factory"]]
             yield {"profile": "dot", "ops": ops, "opts": oi, "cell": ["hostile", h, oi]}
+    # structural shapes: a name merely referenced in one bundle and declared in a sibling / in the document, the same
+    # identifier declared in several scopes, annotated relations in several scopes
+    for oi in (0, 17, 42, 63):
+        ops = [["ns", 0, "ex", "http://a/"],
+               ["bundle", n("b1"), "bundle"], ["bundle", n("b2"), "bundle"],
+               ["rec", 1, "generation", None, {"entity": {"name": n("shared")}, "activity": {"name": n("act")}}, [[n("k"), {"k": "str", "v": "in b1"}]], "factory"],
+               ["rec", 2, "entity", n("shared"), {}, [[n("k"), {"k": "str", "v": "declared in b2"}]], "factory"],
+               ["rec", 2, "usage", None, {"activity": {"name": n("act")}, "entity": {"name": n("shared")}}, [[n("k"), {"k": "str", "v": "in b2"}]], "factory"],
+               ["rec", 0, "entity", n("shared"), {}, [[n("k"), {"k": "str", "v": "declared in the document"}]], "factory"],
+               ["rec", 0, "activity", n("act"), {}, [], "factory"],
+               ["rec", 0, "start", None, {"activity": {"name": n("act")}, "trigger": {"name": n("shared")}, "starter": {"name": n("act2")}}, [[n("r"), {"k": "int", "v": 1}]], "factory"]]
+        yield {"profile": "dot", "ops": ops, "opts": oi, "cell": ["scopes", oi]}
+        # the same without the document-level declarations (the sibling bundle's element is then the only declaration)
+        yield {"profile": "dot", "ops": ops[:6], "opts": oi, "cell": ["scopes-bundles-only", oi]}
 
 
 def _it(b, **kw):
